@@ -17,50 +17,7 @@ namespace C06
 macro "crush" : tactic =>
   `(tactic| (repeat' (first | split | (simp (config := { failIfUnchanged := true, zeta := true }) only []; split) | (simp; split))) )
 
-/-- the panic sites of the current source are exactly the reviewed ones -/
-theorem panic_site_inventory : Facts.panicSites = [
-  "Key.PrivateKey: buf[32:]",
-  "Key.UnmarshalCBOR: k.Ops[i]",
-  "Key.UnmarshalCBOR: k.Ops[i]",
-  "NewKeyFromPrivate: sk[32:]",
-  "NewKeyFromPrivate: sk[:32]",
-  "ProtectedHeader.Critical: value.([]any)",
-  "ProtectedHeader.UnmarshalCBOR: encoded[0]",
-  "Sign1Message.UnmarshalCBOR: data[1:]",
-  "SignMessage.Sign: signers[i]",
-  "SignMessage.UnmarshalCBOR: data[2:]",
-  "SignMessage.Verify: verifiers[i]",
-  "Signature.Sign: protected[0]",
-  "Signature.Verify: protected[0]",
-  "UnprotectedHeader.UnmarshalCBOR: data[0]",
-  "UntaggedSign1Message.UnmarshalCBOR: data[0]",
-  "UntaggedSign1Message.UnmarshalCBOR: sign1MessagePrefix[1]",
-  "byteString.UnmarshalCBOR: data[0]",
-  "decodeECDSASignature: sig[:n]",
-  "decodeECDSASignature: sig[n:]",
-  "deterministicBinaryString: data[0]",
-  "deterministicBinaryString: data[0]",
-  "deterministicBinaryString: data[1]",
-  "deterministicBinaryString: data[1]",
-  "deterministicBinaryString: data[1]",
-  "deterministicBinaryString: data[1]",
-  "deterministicBinaryString: data[2]",
-  "deterministicBinaryString: data[2]",
-  "deterministicBinaryString: data[3]",
-  "deterministicBinaryString: data[4]",
-  "encodeECDSASignature: sig[:n]",
-  "encodeECDSASignature: sig[n:]",
-  "headerLabelValidator.UnmarshalCBOR: data[0]",
-  "init: panic(...)",
-  "init: panic(...)",
-  "init: panic(...)",
-  "init: panic(...)",
-  "validateHeaderParameters: v[0]",
-  "validateHeaderParameters: v[0]",
-  "validateHeaderParameters: v[len(v)-1]",
-  "validateHeaderParameters: v[len(v)-1]",
-  "validateHeaderParameters: value.(string)",
-  "validateHeaderParameters: value.(string)"] := by decide
+
 
 /-- basic decoders never panic -/
 theorem decByteString_no_panic (w : Wire) : decByteString w ≠ .panic := by
